@@ -20,6 +20,9 @@ type Val struct {
 	K string `json:"k"`
 	S string `json:"s,omitempty"`
 	L []Val  `json:"l,omitempty"`
+	// Oct: an integer in 0..255 handed over as slip's octet (an integer type of
+	// the dialect); to the renderer it is the integer.
+	Oct bool `json:"oct,omitempty"`
 }
 
 // IsNil tells whether v is the empty list.
@@ -334,7 +337,7 @@ func Render(ctl string, args []Val, p Printer, o Opts) (text string, used Used, 
 
 func (st *state) tick() {
 	st.steps++
-	if 200000 < st.steps || 100000 < len(st.out) {
+	if 600000 < st.steps || 300000 < len(st.out) {
 		fail("budget", "render budget exceeded")
 	}
 }
